@@ -473,7 +473,7 @@ def yaml_ops(ctx, ug, nfiles):
 def run(ctx):
     ctx.level = "proof"
     ctx.assumptions += [
-        "HDF5 snapshot write/read clause of C20 is NOT modelled (no Lean model of HDF5): not proved, not part of this check's verdict",
+        "HDF5 snapshot clause: proved at the level of index maps only (Model/Snapshot.lean: which file position every cell is written to, which position each reader fetches; theorems snapshot_layout, buffered_roundtrip, plain_roundtrip, legacy_roundtrip); HDF5 itself, the stored doubles, the floating point position->index computations of the readers, resolution degrading (more than one old cell per new cell) and the AMR/Voronoi branches of the plain reader are not modelled - the first three are exercised by the snap/snapb experiment (search only)",
         "text is handled as lines of characters (getline); names and values contain no newline; characters are compared by code point (the generator stays in ASCII, where this is std::string's byte order)",
         "theorems about units are over exact rationals (the exact values of the table's doubles); rounding of the double operations is only measured (bit-exact rate, max relative deviation)",
         "std::stoi overflow of an exponent and exponents with |p| > 6 are outside the generated domain",
@@ -875,10 +875,13 @@ MANIFEST = dict(
           "units_table_same_dimensions, units_table_dimensions, si_units_are_one, pow_spec (x^p = integer power for every integer p, exponents times p), compound_is_product, "
           "toSI_toUnit / toUnit_toSI and the two cross-quantity rows of try_conversion (inverse when factor and value are non-zero). Tie: the same Lean definitions (drv_c20) vs the real "
           "YAMLDictionary/ParameterFile/UnitConverter: printed text byte-identical, dictionaries identical, unit values bit-identical at Float and within 2e-15 of the exact model; oracles on "
-          "the real code: parse(print d)=d, print idempotent, used-values dump fed back reproduces every queried value to 1e-5, to_unit(to_SI)=id to 1e-14, compound=product, x^0=1, table relations."),
-    note=("NOT modelled, NOT proved: the HDF5 snapshot write/read clause (no Lean model of HDF5) - only a replayable experiment, search only, run in both tiers: the real GadgetDensityGridWriter "
-          "(legacy grid and task-based DensitySubGridCreator layouts with unequal per-subgrid cell counts) read back on the same geometry through the real "
-          "CMacIonizeSnapshotDensityFunction and BufferedCMacIonizeSnapshotDensityFunction (buffer smaller than the number of subgrids), every cell compared. Also outside the theorems: number formatting of the used-values dump (operator<< of "
+          "the real code: parse(print d)=d, print idempotent, used-values dump fed back reproduces every queried value to 1e-5, to_unit(to_SI)=id to 1e-14, compound=product, x^0=1, table relations. Snapshot index maps: see note."),
+    note=("HDF5 snapshot clause: proved only at the level of INDEX MAPS (Model/Snapshot.lean: block loop and offsets of the task-based and legacy writer, subgrid/cell numbering, stride arithmetic "
+          "of BufferedCMacIonizeSnapshotDensityFunction, coordinate binning loop of CMacIonizeSnapshotDensityFunction; theorems snapshot_layout, buffered_roundtrip, plain_roundtrip, "
+          "legacy_roundtrip, snapshot_blocksize_irrelevant for every block size and layout), tied by stream snapshot-index (real writer + both real readers on generated layouts incl. subgrids of "
+          "just below/exactly/just above one and two writer blocks: position of every cell in every dataset and position fetched by each reader identical to the model). NOT modelled: HDF5 itself, "
+          "stored doubles, floating point position->index computations, resolution degrading, AMR/Voronoi snapshots; the first three are exercised by a replayable experiment, search only "
+          "(real writer -> both readers on random geometries, every cell compared). Also outside the theorems: number formatting of the used-values dump (operator<< of "
           "double; compared by oracle to 1e-5) and rounding of the double arithmetic in conversions (measured: bit-exact rate of the Float model, max deviation of the exact model). "
           "Trusted: Lean kernel + 3 standard axioms; hand model of YAMLDictionary.hpp / Unit.hpp / UnitConverter.hpp (tied by the differential run); translator tools/gen_c20_units.py "
           "(names by regex, values by evaluation, every name re-compared through the `single` op); characters compared by code point (ASCII generator); parser UB on a line indented less "
